@@ -321,7 +321,7 @@ pub fn run(ctx: &Ctx) -> Verdict {
     ];
     v.subs.push(crate::replay_corpus(ctx, &|sub, case| replay(sub, case)));
     v.subs.push(run_documented(ctx));
-    let n = ctx.tier.pick(640, 12_000) as usize;
+    let n = ctx.tier.pick(1600, 32_000) as usize;
     let batches = n.div_ceil(1600);
     for b in 0..batches {
         let count = (n / batches).max(1);
